@@ -75,7 +75,7 @@ CHECKS = {
             "Generated sequences of requests, streaming opens, (partial) closes, clock advances and server-side closes over 1-3 origins for drawn "
             "max_connections / max_keepalive_connections / keepalive_expiry (incl. 0 and None), HTTP/1.1 and HTTP/2: reuse law, idle count <= "
             "keep-alive limit after every operation, no stale connection handed out, every close of an idle connection attributable.",
-            "Reference model in vf/props/c09.py; ties within 1 ms of a deadline are not judged; sequential (single caller).",
+            "Reference model in vf/props/c09.py; ties within 1 ms of a deadline are not judged; sequential (single caller). Layer real-backends: the real socket-readability probe behind the sync / anyio / trio backends (plain, TLS, TLS-in-TLS): silent server-side close of the idle connection, then the next request; reuse without a close.",
             "3 C09"),
     "C10": ("exploration",
             "exhaustive configuration matrix + Hypothesis request histories over near-miss origins; oracle = establishment chain of the pipe that carried each token",
